@@ -358,6 +358,9 @@ package util
 //@   ensures[C07.sum.mono] segHitSnap && segHit && segLoSnap == segLo && segHiSnap == segHi && t1 <= t2 && steps[segLo] <= steps[segHi] ==> lerpSum(steps[segLo], steps[segHi], t1, float64(segLo), float64(segHi)) <= lerpSum(steps[segLo], steps[segHi], t2, float64(segLo), float64(segHi))
 //@   ensures[C07.interp.segment.expr] segHitSnap && segHit && segLoSnap == segLo && segHiSnap == segHi && t1 <= t2 && steps[segLo] <= steps[segHi] ==> lerp(steps[segLo], steps[segHi], t1, float64(segLo), float64(segHi)) <= lerp(steps[segLo], steps[segHi], t2, float64(segLo), float64(segHi))
 //@   ensures[C07.interp.segment] segHitSnap && segHit && segLoSnap == segLo && segHiSnap == segHi && t1 <= t2 && steps[segLo] <= steps[segHi] ==> r1 <= r2
+// across a segment end: the value inside the segment must not exceed the step speed reached at its upper end
+// (known finding C07: false for step speeds that are not float32 values just below x.5; listed last, never assumed)
+//@   ensures[C07.interp.boundary] segHit && steps[segLo] <= steps[segHi] ==> int(round(r2)) <= int(round(steps[segHi]))
 //@   modifies anything
 
 //@ func lemmaFindClosestMonotone
